@@ -1,8 +1,8 @@
 """Which suites, theorems and extracted data decide which property."""
-from . import dhcpwire, pool, dhcp, acl, dnsrate, dnscache, dnsroute, dnswire, leasedb, radv, dhcpcfg, hostile, config, e2e
+from . import dhcpwire, pool, dhcp, acl, dnsrate, dnscache, dnsroute, dnswire, leasedb, radv, dhcpcfg, hostile, config, e2e, crash
 
 SUITES = {}
-for cls in [dhcpwire.DhcpRoundTrip, dhcpwire.DhcpParse, dhcpwire.Frame, dhcpwire.BroadcastFlag, pool.PoolHistory, dhcp.DhcpHistory, acl.AclSuite, acl.LeaseJson, dnsrate.BucketSuite, dnsrate.RateLimitSuite, dnscache.CacheSuite, dnsroute.RouteSuite, dnswire.DnsEnc, dnswire.DnsDec, dnswire.InReply, leasedb.LeaseDb, radv.RaSuite, dhcpcfg.DhcpCfg, hostile.Icmp6, hostile.Lldp, hostile.DhcpAcc, hostile.ToArr, hostile.EdnsAcc, hostile.DnsSafe, hostile.DhcpSafe, config.CfgField, config.CfgLoad, e2e.E2E]:
+for cls in [dhcpwire.DhcpRoundTrip, dhcpwire.DhcpParse, dhcpwire.Frame, dhcpwire.BroadcastFlag, pool.PoolHistory, dhcp.DhcpHistory, acl.AclSuite, acl.LeaseJson, dnsrate.BucketSuite, dnsrate.RateLimitSuite, dnscache.CacheSuite, dnsroute.RouteSuite, dnswire.DnsEnc, dnswire.DnsDec, dnswire.InReply, leasedb.LeaseDb, radv.RaSuite, dhcpcfg.DhcpCfg, hostile.Icmp6, hostile.Lldp, hostile.DhcpAcc, hostile.ToArr, hostile.EdnsAcc, hostile.DnsSafe, hostile.DhcpSafe, config.CfgField, config.CfgLoad, e2e.E2E, crash.CrashKill]:
     SUITES[cls.name] = cls()
 
 TRUSTED_BASE = [
@@ -51,7 +51,7 @@ PROPS = {
     ),
     "C01": dict(
         suites=[("pool", 2500, 200000)],
-        extracted=["pool.requestedInUseCmp", "pool.newInUseCmp", "pool.ownCurrentCmp", "pool.step1Order", "pool.step2Order", "pool.structFields"],
+        extracted=["pool.requestedInUseCmp", "pool.newInUseCmp", "pool.ownCurrentCmp", "pool.step1Order", "pool.step2Order", "pool.structFields", "dhcp.handlePktExclusive"],
         rule=POOL_RULE,
         assumptions=POOL_ASSUME, trusted=POOL_TRUST,
     ),
@@ -143,7 +143,7 @@ PROPS = {
         trusted=[],
     ),
     "C18": dict(
-        suites=[("leasedb", 600, 6000), ("pool", 1500, 40000)],
+        suites=[("leasedb", 600, 6000), ("pool", 1500, 40000), ("crashkill", 40, 1500)],
         extracted=["pool.setupDbTransactional", "pool.structFields"],
         rule="database files prepared with raw SQL in every start state (new, unversioned original schema, version 0, version 1, newer "
              "versions) with 0..12 arbitrary lease rows, opened by the real Pool with and without a simulated crash right before the "
